@@ -30,8 +30,15 @@ fn build_dir() -> PathBuf {
 }
 
 /// Level B needs every script path to resolve from the cwd; worlds with scripts run from the root.
-pub fn applicable(_w: &World) -> bool {
-    build_dir().join("blockwatch").exists()
+pub fn applicable(w: &World) -> bool {
+    // retries sleep in real time here (0.25-0.75 s for the first one, 15 minutes until the library
+    // gives up): only a single retry is affordable outside the simulated clock
+    let affordable = w.ai.values().all(|r| match r {
+        AiReply::RetryForever { .. } => false,
+        AiReply::RetryThen { times, .. } => *times <= 1,
+        _ => true,
+    });
+    affordable && build_dir().join("blockwatch").exists()
 }
 
 fn effective_cwd(w: &World) -> String {
@@ -119,6 +126,7 @@ fn start_endpoint(replies: BTreeMap<String, AiReply>) -> std::io::Result<Endpoin
     let log: Arc<Mutex<Vec<NetEvent>>> = Arc::new(Mutex::new(Vec::new()));
     let stop2 = stop.clone();
     let log2 = log.clone();
+    let seen: Arc<Mutex<BTreeMap<String, u32>>> = Arc::new(Mutex::new(BTreeMap::new()));
     let handle = std::thread::spawn(move || {
         let mut conn = 0usize;
         let mut workers = Vec::new();
@@ -129,6 +137,7 @@ fn start_endpoint(replies: BTreeMap<String, AiReply>) -> std::io::Result<Endpoin
                     let c = conn;
                     let log = log2.clone();
                     let replies = replies.clone();
+                    let seen = seen.clone();
                     workers.push(std::thread::spawn(move || {
                         let _ = s.set_nonblocking(false);
                         let _ = s.set_read_timeout(Some(Duration::from_secs(10)));
@@ -166,9 +175,29 @@ fn start_endpoint(replies: BTreeMap<String, AiReply>) -> std::io::Result<Endpoin
                             at_ms: 0,
                             request: Box::new(rr),
                         });
-                        let reply = replies.get(&token).cloned().unwrap_or(AiReply::Text("OK".into()));
+                        let nth = {
+                            let mut seen = seen.lock().unwrap();
+                            let n = seen.entry(token.clone()).or_insert(0);
+                            *n += 1;
+                            *n
+                        };
+                        let planned = replies.get(&token).cloned().unwrap_or(AiReply::Text("OK".into()));
+                        let (reply, retryable) = match planned {
+                            AiReply::RetryThen { code, times, then } => {
+                                if nth <= times { (AiReply::Text(String::new()), Some(code)) } else { (*then, None) }
+                            }
+                            AiReply::RetryForever { code } => (AiReply::Text(String::new()), Some(code)),
+                            other => (other, None),
+                        };
                         let good = |t: &str| response(200, "OK", "application/json", &completion(&mdl, serde_json::Value::String(t.into())));
                         let (bytes, cut, reset) = match &reply {
+                            _ if retryable.is_some() => (crate::net::retryable_response(retryable.unwrap(), nth, false), None, false),
+                            AiReply::QuotaExceeded => (
+                                response(429, "Too Many Requests", "application/json", &serde_json::json!({"error": {"message": "simulated: quota exceeded", "type": "insufficient_quota", "param": null, "code": "insufficient_quota"}}).to_string()),
+                                None,
+                                false,
+                            ),
+                            AiReply::RetryThen { .. } | AiReply::RetryForever { .. } => unreachable!(),
                             AiReply::Text(t) => (good(t), None, false),
                             AiReply::Status { code, json_body } => {
                                 let (ct, b) = if *json_body {
@@ -224,7 +253,10 @@ fn start_endpoint(replies: BTreeMap<String, AiReply>) -> std::io::Result<Endpoin
                             conn: c,
                             at_ms: 0,
                             token,
-                            kind: reply.kind_name().into(),
+                            kind: match retryable {
+                                Some(code) => format!("retryable_{code}"),
+                                None => reply.kind_name().into(),
+                            },
                             bytes: total,
                         });
                     }));
